@@ -1,7 +1,8 @@
 // C56 driver: runs the REAL tfel::material::SlipSystemsDescription (compiled from REPO sources by check.py) on
 // slip-system families read from stdin, prints what its public API returns.
-// input lines:  <cubic|fcc|bcc|hcp> b0 b1 b2 [b3] p0 p1 p2 [p3]
-//               pair <cs> b.. p.. b.. p..      (two families: interaction matrix structure)
+// input lines:  [geo] <cubic|fcc|bcc|hcp> b0 b1 b2 [b3] p0 p1 p2 [p3] [b.. p..]*
+//   (several families may follow each other; "geo": also print normals, directions, orientation / climb tensors and
+//    Schmid factors for seven loading directions)
 #include <cstdio>
 #include <cstdlib>
 #include <iostream>
@@ -60,59 +61,53 @@ int main() {
     std::istringstream is(line);
     std::string w;
     is >> w;
-    const bool pair = (w == "pair");
-    if (pair) is >> w;
+    const bool geo = (w == "geo");
+    if (geo) is >> w;
     const auto cs = cs_of(w);
     const bool hcp = cs == CrystalStructure::HCP;
     std::printf("BEGIN %s\n", line.c_str());
     try {
       SSD d(cs);
-      add(d, hcp, is);
-      if (pair) add(d, hcp, is);
+      while (true) {
+        is >> std::ws;
+        if (is.eof()) break;
+        add(d, hcp, is);
+      }
       const auto nf = d.getNumberOfSlipSystemsFamilies();
       for (SSD::size_type f = 0; f != nf; ++f) {
         const auto ss = d.getSlipSystems(f);
+        std::printf("N %zu %zu\n", f, ss.size());
+        for (SSD::size_type i = 0; i != ss.size(); ++i) {
+          std::printf("SYS %zu", f);
+          print_sys(ss[i]);
+          std::printf("\n");
+        }
+        if (!geo) continue;
         const auto ns = d.getSlipPlaneNormals(f);
         const auto ms = d.getSlipDirections(f);
         const auto mus = d.getOrientationTensors(f);
         const auto cl = d.getClimbTensors(f);
-        std::printf("N %zu %zu %zu %zu %zu %zu\n", f, ss.size(), ns.size(), ms.size(), mus.size(), cl.size());
+        std::printf("NG %zu %zu %zu %zu %zu\n", f, ns.size(), ms.size(), mus.size(), cl.size());
         for (SSD::size_type i = 0; i != ss.size(); ++i) {
-          std::printf("SYS %zu", f);
-          print_sys(ss[i]);
-          std::printf("\nGEO %zu %zu", f, i);
-          for (auto x : ns[i]) std::printf(" %.21Lg", x);
-          for (auto x : ms[i]) std::printf(" %.21Lg", x);
-          for (auto x : mus[i]) std::printf(" %.21Lg", x);
-          for (auto x : cl[i]) std::printf(" %.21Lg", x);
+          std::printf("GEO %zu %zu", f, i);
+          for (auto x : ns.at(i)) std::printf(" %.21Lg", x);
+          for (auto x : ms.at(i)) std::printf(" %.21Lg", x);
+          for (auto x : mus.at(i)) std::printf(" %.21Lg", x);
+          for (auto x : cl.at(i)) std::printf(" %.21Lg", x);
           std::printf("\n");
         }
-        if (!pair) {
-          for (int k = 0; k != 7; ++k) {
-            SSD::vec dv;
-            if (hcp) {
-              dv = SSD::vec4d{dirs4[k][0], dirs4[k][1], dirs4[k][2], dirs4[k][3]};
-              std::printf("SCH %zu %d %d %d %d :", f, dirs4[k][0], dirs4[k][1], dirs4[k][2], dirs4[k][3]);
-            } else {
-              dv = SSD::vec3d{dirs3[k][0], dirs3[k][1], dirs3[k][2]};
-              std::printf("SCH %zu %d %d %d :", f, dirs3[k][0], dirs3[k][1], dirs3[k][2]);
-            }
-            const auto sf = d.getSchmidFactors(dv, f);
-            for (auto x : sf) std::printf(" %.21Lg", x);
-            std::printf("\n");
+        // (the pinned getSchmidFactors writes r[<family index>]: never call it where that is out of bounds)
+        for (int k = 0; k != 7 && f < ss.size(); ++k) {
+          SSD::vec dv;
+          if (hcp) {
+            dv = SSD::vec4d{dirs4[k][0], dirs4[k][1], dirs4[k][2], dirs4[k][3]};
+            std::printf("SCH %zu %d %d %d %d :", f, dirs4[k][0], dirs4[k][1], dirs4[k][2], dirs4[k][3]);
+          } else {
+            dv = SSD::vec3d{dirs3[k][0], dirs3[k][1], dirs3[k][2]};
+            std::printf("SCH %zu %d %d %d :", f, dirs3[k][0], dirs3[k][1], dirs3[k][2]);
           }
-        }
-      }
-      if (pair) {
-        const auto im = d.getInteractionMatrixStructure();
-        std::printf("IMRANK %zu\n", im.rank());
-        const auto all = d.getSlipSystems();
-        std::vector<SSD::system> flat;
-        for (const auto& v : all)
-          for (const auto& s : v) flat.push_back(s);
-        for (const auto& g1 : flat) {
-          std::printf("IM");
-          for (const auto& g2 : flat) std::printf(" %zu", im.getRank(g1, g2));
+          const auto sf = d.getSchmidFactors(dv, f);
+          for (auto x : sf) std::printf(" %.21Lg", x);
           std::printf("\n");
         }
       }
